@@ -79,6 +79,10 @@ func (r *Reader) readSecondStage(bufMeta []bufferMeta) (rb []byte, err error) {
 			// rb = append(rb, rbTemp...)
 			if (rbCursor + len(rbTemp)) > totalDatalen {
 				totalDatalen += totalDatalen
+				// doubling once is not enough when the data compressed by more than a factor of 8
+				if (rbCursor + len(rbTemp)) > totalDatalen {
+					totalDatalen = rbCursor + len(rbTemp)
+				}
 				rb2 := make([]byte, totalDatalen)
 				copy(rb2[:rbCursor], rb[:rbCursor])
 				rb = rb2
